@@ -224,7 +224,10 @@ func runClient(raw []byte) interface{} {
 		Cases  [][]clientOp `json:"cases"`
 		CliBin string       `json:"cli_bin"`
 	}
-	if err := json.Unmarshal(raw, &in); err != nil {
+	// attribute values keep their exact decimal text (json.Number): integers above 2^53 must reach the client library unrounded
+	dec := json.NewDecoder(strings.NewReader(string(raw)))
+	dec.UseNumber()
+	if err := dec.Decode(&in); err != nil {
 		panic(err)
 	}
 	out := make([][]clientRes, len(in.Cases))
